@@ -161,3 +161,23 @@ func TestDebugSVG(t *testing.T) {
 		fmt.Println(e.String(), e.F, e.CTM)
 	}
 }
+
+// TestDebugRedraw writes the rendered $VERIF_DOC twice and prints the first difference of the traces.
+func TestDebugRedraw(t *testing.T) {
+	doc := os.Getenv("VERIF_DOC")
+	if doc == "" {
+		t.Skip("no VERIF_DOC")
+	}
+	r, err := wr.RenderWith(doc, wr.Opts{Engine: "pango", Zoom: 1}, wr.FreshFC("pango"))
+	if err != nil {
+		t.Fatal(err)
+	}
+	first := r.Rec.Trace()
+	rec := wr.NewRecorder()
+	r.Doc.Write(rec, 1, nil)
+	if tr := rec.Trace(); tr != first {
+		fmt.Println("REDRAW DIFFERS:", firstDiff(first, tr))
+	} else {
+		fmt.Println("REDRAW SAME", strings.Count(first, "\n"))
+	}
+}
